@@ -1,6 +1,6 @@
 #!/bin/sh
 # usage: seedrun.sh <patch.diff> <ID> [<ID>...]   - apply a seeded change to /repo, run checks, undo it straight afterwards
-P="$1"; shift
+P="$(readlink -f "$1")"; shift
 cd /repo || exit 9
 if [ -n "$(git status --porcelain --untracked-files=no)" ]; then echo "repo dirty, refusing"; exit 9; fi
 git apply "$P" 2>/dev/null || git apply -3 "$P" 2>/dev/null || { echo "PATCH-DOES-NOT-APPLY $P"; git checkout -q HEAD -- . ; exit 8; }
